@@ -105,10 +105,24 @@ def build_coq(jobs=16):
     with Lock("coqbuild"):
         if not os.path.exists(os.path.join(COQ, "Makefile")):
             sh(["coq_makefile", "-f", "_CoqProject", "-o", "Makefile"], cwd=COQ, timeout=120)
-        p = sh(["timeout", "3000", "make", "-j%d" % jobs], cwd=COQ, timeout=3100, check=False)
+        # -k: a file that no longer compiles must only affect the properties that depend on it
+        # (each check re-compiles its own Props file and reports that obligation as failed)
+        p = sh(["timeout", "3000", "make", "-k", "-j%d" % jobs], cwd=COQ, timeout=3100, check=False)
         if p.returncode != 0:
-            raise BuildError("coq build failed:\n" + p.stdout[-6000:])
+            log("coq build: some files failed to compile:\n" + "\n".join(l for l in p.stdout.splitlines() if "Error" in l or l.startswith("File "))[-3000:])
     return p.stdout
+
+
+def ensure_driver():
+    """The extracted-model driver (built by setup); rebuilt here when missing or older than Nfa.vo."""
+    drv = os.path.join(BIN, "driver")
+    src = os.path.join(COQ, "Nfa.vo")
+    with Lock("ocamlbuild"):
+        if not os.path.exists(drv) or (os.path.exists(src) and os.path.getmtime(src) > os.path.getmtime(drv)):
+            p = sh(["sh", os.path.join(VERIF, "ocaml", "build.sh")], timeout=1200, check=False)
+            if p.returncode != 0:
+                raise BuildError("extraction / OCaml driver build failed:\n" + p.stdout[-3000:])
+    return drv
 
 
 def coqc(vfile, cwd, timeout=1200, extra_q=()):
